@@ -77,6 +77,23 @@ def layout(arr, how):
     raise ValueError(how)
 
 
+def awkward_geometry(series, r):
+    """rewrite the geometry of a single-frame series with non-terminating decimals, stored as the valid 16-character decimal
+    strings a file would hold (values the library has to re-format when it derives positions / spacings from them)"""
+    from pydicom.valuerep import DS
+    t = r.choice([1.0 / 3.0, 1.0 / 7.0, 0.1 + 0.2])
+    ori = r.choice([(0.6, 0.8, 0.0, -0.8, 0.6, 0.0), (1.0, 0.0, 0.0, 0.0, 0.0, -1.0)])
+    o = np.array(ori, dtype=float)
+    normal = np.cross(o[:3], o[3:])
+    for i, d in enumerate(series):
+        pos = np.array([t, -t, 0.0]) + i * t * normal
+        d.ImagePositionPatient = [DS(float(v), auto_format=True) for v in pos]
+        d.PixelSpacing = [DS(t, auto_format=True), DS(t / 2, auto_format=True)]
+        d.ImageOrientationPatient = [DS(float(v), auto_format=True) for v in ori]
+        d.SliceThickness = DS(t, auto_format=True)
+    return series
+
+
 LAYOUTS = ['c', 'c', 'f', 'transposed', 'view', 'negstride', 'readonly', 'readonly', 'readonly_view']
 
 
@@ -100,6 +117,8 @@ def subject_seg(r, nr):
     n = r.randint(1, 4)
     if kind == 'series':
         src = sources.ct_series(n, rows, cols)
+        if r.random() < 0.3:
+            awkward_geometry(src, r)
         shape = (n, rows, cols)
     elif kind == 'enhanced':
         src = [sources.enhanced_multiframe(n, rows, cols)]
@@ -220,6 +239,8 @@ def subject_pm(r, nr):
     rows, cols, n = r.randint(2, 6), r.randint(2, 6), r.randint(1, 3)
     if kind == 'series':
         src = sources.ct_series(n, rows, cols)
+        if r.random() < 0.3:
+            awkward_geometry(src, r)
     elif kind == 'enhanced':
         src = [sources.enhanced_multiframe(n, rows, cols)]
     else:
